@@ -183,7 +183,7 @@ func AttrCells(prefix string) []*Program {
 	mkAttr := func(b *mxBuilder, kind AttrKind) *Attr {
 		switch kind {
 		case AConst:
-			return &Attr{Kind: AConst, Name: "title", Val: `a "q" & <b>`, Quote: '\''}
+			return &Attr{Kind: AConst, Name: "title", Val: `a "q" & <b> it's`, Quote: '\''}
 		case ABoolConst:
 			return &Attr{Kind: ABoolConst, Name: "hidden"}
 		case ABoolExpr:
